@@ -31,7 +31,7 @@ inductive NameChange (s : State) (n : Name) (d : DymName) : Op → DymName → P
   | takeOver (a : Acct) (dur pay c : Nat) : a ≠ d.owner → d.expired s.now = true → d.expireAt + s.p.grace ≤ s.now →
       NameChange s n d (.register a n dur pay c)
         { owner := a, controller := a, expireAt := s.now + yearSeconds * dur, configs := [], contact := c }
-  | transfer (b : Acct) : d.expired s.now = false → AMap.get s.nameSO n = none →
+  | transfer (b : Acct) : d.expired s.now = false → AMap.get s.nameSO n = none → b ≠ d.owner →
       NameChange s n d (.transfer d.owner n b) (cleared b d.expireAt)
   | setController (c : Acct) : d.expired s.now = false →
       NameChange s n d (.setController d.owner n c) { d with controller := c }
@@ -50,7 +50,7 @@ inductive NameChange (s : State) (n : Name) (d : DymName) : Op → DymName → P
       NameChange s n d (.completeName a n) (cleared b.bidder d.expireAt)
   /-- the owner accepts a buy order -/
   | accept (pfx : Bool) (id m : Nat) (bo : BuyOrder) : AMap.get s.bos id = some bo → bo.isAlias = false → bo.asset = n →
-      d.expired s.now = false → AMap.get s.nameSO n = none →
+      d.expired s.now = false → AMap.get s.nameSO n = none → bo.buyer ≠ d.owner →
       NameChange s n d (.acceptOffer d.owner pfx id m) (cleared bo.buyer d.expireAt)
 
 /-! ### operations that do not touch the name store -/
@@ -205,7 +205,7 @@ theorem transferName_change {a m b} (h : transferName s a m b = .ok s') (hd : ge
     rename (getName s n = some _) => hd0
     rw [hd] at hd0; injection hd0 with hd0; subst hd0
     rename (d.owner = a) => ho; subst ho
-    exact ⟨_, if_pos rfl, Or.inr (NameChange.transfer b (by assumption) (by assumption))⟩
+    exact ⟨_, if_pos rfl, Or.inr (NameChange.transfer b (by assumption) (by assumption) (by assumption))⟩
   · exact ⟨d, by simp [hnm]; exact hd, Or.inl rfl⟩
 
 theorem setController_change {a m c} (h : setController s a m c = .ok s') (hd : getName s n = some d) :
@@ -358,7 +358,7 @@ theorem acceptBO_change {a pfx id mn} (h : acceptBO s a pfx id mn = .ok s') (hd 
         rename (d.owner = a) => ho; subst ho
         rename (¬ bo.isAlias = true) => hna
         refine ⟨_, if_pos hnm, Or.inr ?_⟩
-        exact NameChange.accept pfx id mn bo (getBO_some hg).1 (by simpa using hna) hnm.symm he (by rw [hnm]; assumption)
+        exact NameChange.accept pfx id mn bo (getBO_some hg).1 (by simpa using hna) hnm.symm he (by rw [hnm]; assumption) (by assumption)
       · refine ⟨d, ?_, Or.inl rfl⟩
         simp only [hnm, if_false]
         exact hd
